@@ -675,6 +675,69 @@ def d3e_shared_record(chk: Check) -> None:
         raise AnalysisError("no shared seen-anchors parameter found")
 
 
+def d7_descent_kinds(chk: Check) -> None:
+    """search_for_paths has a branch for every container kind it can be
+    given; each test that decides whether to recurse into a child must
+    accept all of those kinds, or children of the missing kind are never
+    searched (and are compared as if they were scalars)."""
+    prog = chk.prog
+    chk.rule("C07-D7", "every descent test of search_for_paths accepts "
+             "each container kind the function has a branch for", floor=2)
+    fi = fn(prog, "search_for_paths")
+    data = fi.params()[2]
+    kinds: Set[str] = set()
+    for n in fi.node.body:
+        cur = n
+        while isinstance(cur, ast.If):
+            t = cur.test
+            if isinstance(t, ast.Call) and src(t.func) == "isinstance" and \
+                    src(t.args[0]) == data:
+                elts = t.args[1].elts if isinstance(t.args[1], ast.Tuple) \
+                    else [t.args[1]]
+                kinds |= {src(e) for e in elts}
+            cur = cur.orelse[0] if len(cur.orelse) == 1 and \
+                isinstance(cur.orelse[0], ast.If) else None
+    if len(kinds) < 3:
+        raise AnalysisError("container branches of search_for_paths: {}"
+                            .format(sorted(kinds)))
+    n = 0
+    for t in walk_local(fi.node):
+        if not (isinstance(t, ast.If) and isinstance(t.test, ast.Call) and
+                src(t.test.func) == "isinstance" and
+                src(t.test.args[0]) != data):
+            continue
+        recs = [c for s_ in t.body for c in ast.walk(s_)
+                if isinstance(c, ast.Call) and
+                src(c.func) == "search_for_paths" and c.args and
+                len(c.args) > 2 and src(c.args[2]) == src(t.test.args[0])]
+        if not recs:
+            continue
+        n += 1
+        spec = t.test.args[1]
+        from sa.coords import reaching_def
+        if isinstance(spec, ast.Name):
+            # a module-level constant naming the kinds
+            mod_defs = [a for a in fi.module.tree.body
+                        if isinstance(a, ast.Assign) and
+                        src(a.targets[0]) == spec.id]
+            if mod_defs:
+                spec = mod_defs[-1].value
+        elts = spec.elts if isinstance(spec, ast.Tuple) else [spec]
+        have = {src(e) for e in elts}
+        text = "if " + src(t.test)[:60]
+        missing = sorted(kinds - have)
+        if missing:
+            chk.fail("C07-D7", fi, t, text,
+                     "children of kind {} are not descended into although "
+                     "the function handles that kind: their members are "
+                     "never reported".format("/".join(missing)))
+        else:
+            chk.ok("C07-D7", fi, t, text, "accepts {}".format(
+                "/".join(sorted(kinds))))
+    if n < 2:
+        raise AnalysisError("descent tests of search_for_paths not found")
+
+
 # ---------------------------------------------------------------- D4 ------
 def d4_once(chk: Check) -> None:
     prog = chk.prog
@@ -755,4 +818,5 @@ def run(chk: Check) -> None:
     d3_bookkeeping(chk)
     d3e_shared_record(chk)
     d5_options(chk)
+    d7_descent_kinds(chk)
     d4_once(chk)
